@@ -1,10 +1,47 @@
-(* C08 property theorems (statements closed by [exact]); filled as the proofs land. *)
-From Tbfmm Require Import Base.Prelude Index.MortonDefs Tree.GroupDefs Tree.BuildDefs Tree.Invariant Exec.ExecDefs.
+(* C08 — results and the set of elementary interactions do not depend on the grouping.
+   Statements only; proofs in Spec/Corollaries.v and Spec/ExactlyOnce.v. *)
+From Tbfmm Require Import Base.Prelude Index.MortonDefs Index.ListsDefs Index.ListsCapacity Tree.GroupDefs Tree.BuildDefs
+     Tree.Invariant Exec.ExecDefs Spec.Elem Spec.Kernel Spec.ExactlyOnce Spec.Corollaries.
+From Coq Require Import Sorting.Permutation.
 Local Open Scope Z_scope.
 
-(* non-vacuity / smoke: the model executes a concrete tree without any assertion failure *)
-Theorem C08_example_no_assert :
-  forallb (fun c => match c with CAssert _ => false | _ => true end)
-          (execute 3 false 2 63 (build (parent 3) 4 2 false [5;5;63;0;9;12;9;300;301;511])) = true.
+(* the multiset of elementary interactions of a full run equals a specification written ONLY in terms of the dimension, the
+   periodic flag, the upper level, the height and the table of occupied leaves - block size and grouping mode do not occur *)
+Theorem C08_exec_refines_spec : forall d per H B mode s t idx, (0 < d)%nat -> 1 <= H ->
+  tree_ok (parent d) H B mode t -> particles_ok idx t ->
+  Forall (fun i => 0 <= i < 2 ^ ((H - 1) * dz d)) idx -> idx <> [] ->
+  Permutation (elementary (execute d per s 63 t)) (spec_all d per s H (leaf_table t)).
+Proof. exact exec_refines_spec. Qed.
+Print Assumptions C08_exec_refines_spec.
+
+(* hence two groupings of the same leaves (any two block sizes, any two modes) perform the same elementary interactions *)
+Theorem C08_grouping_independent : forall d per H B1 m1 B2 m2 s t1 t2 idx, (0 < d)%nat -> 1 <= H ->
+  tree_ok (parent d) H B1 m1 t1 -> tree_ok (parent d) H B2 m2 t2 -> particles_ok idx t1 -> particles_ok idx t2 ->
+  Forall (fun i => 0 <= i < 2 ^ ((H - 1) * dz d)) idx -> idx <> [] -> leaf_table t1 = leaf_table t2 ->
+  Permutation (elementary (execute d per s 63 t1)) (elementary (execute d per s 63 t2)).
+Proof. exact grouping_independent. Qed.
+Print Assumptions C08_grouping_independent.
+
+(* and the particle results are the same (for s <= 2 both equal "every other particle once", whatever B and the mode) *)
+Theorem C08_results_independent : forall d H B1 m1 B2 m2 s t1 t2 idx, (0 < d)%nat -> 1 <= H ->
+  tree_ok (parent d) H B1 m1 t1 -> tree_ok (parent d) H B2 m2 t2 -> particles_ok idx t1 -> particles_ok idx t2 ->
+  Forall (fun i => 0 <= i < 2 ^ ((H - 1) * dz d)) idx -> idx <> [] -> s <= 2 ->
+  forall p q, 0 <= p < zlen idx -> 0 <= q < zlen idx ->
+    reached (run (H - 1) (execute d false s 63 t1) st0) p q = reached (run (H - 1) (execute d false s 63 t2) st0) p q.
+Proof.
+  intros d H B1 m1 B2 m2 s t1 t2 idx Hd HH T1 T2 P1 P2 Hr Hne Hs p q Hp Hq.
+  pose proof (fun l t Hl Ht => ilist_cell_capacity d false l t Hd Hl Ht) as Hcap.
+  rewrite (fmm_exactly_once d Hd Hcap H B1 m1 s t1 idx HH T1 P1 Hr Hne Hs p q Hp Hq).
+  rewrite (fmm_exactly_once d Hd Hcap H B2 m2 s t2 idx HH T2 P2 Hr Hne Hs p q Hp Hq).
+  reflexivity.
+Qed.
+Print Assumptions C08_results_independent.
+
+(* the automatic block size is some B >= 1 (max(1, n/(2T))), which the theorems above cover *)
+Lemma C08_auto_block_size_pos : forall nleaves threads, 1 <= Z.max 1 (nleaves / (threads * 2)).
+Proof. intros. lia. Qed.
+
+Example C08_example :
+  let idx := [5;5;63;0;9;12;9;300;301;511] in
+  leaf_table (build (parent 3) 4 1 false idx) = leaf_table (build (parent 3) 4 7 true idx).
 Proof. vm_compute. reflexivity. Qed.
-Print Assumptions C08_example_no_assert.
